@@ -67,6 +67,35 @@ def _listcomp_def(m: FnModel, name: str):
     return d
 
 
+def picked_from(index: RepoIndex, dest: ast.AST) -> Optional[str]:
+    """`choice(rng, C)` with rng.py's helper, when that helper is `data[rng.choice(len(data))]`
+    (every element possible): the name C"""
+    if isinstance(dest, ast.Call) and src(dest.func) == 'choice' and len(dest.args) == 2 and \
+            not dest.keywords and isinstance(dest.args[1], ast.Name):
+        from ..view import value_text
+        try:
+            h = index.func('gym_gridverse/rng.py', 'choice')
+        except Exception:      # noqa: BLE001
+            return None
+        ps = [a.arg for a in h.node.args.args]
+        if len(ps) == 2 and value_text(index, h) == f'{ps[1]}[{ps[0]}.choice(len({ps[1]}))]':
+            return dest.args[1].id
+    return None
+
+
+def not_none_branch(dest: ast.AST, name: Optional[str], guard) -> ast.AST:
+    """`x = None if <no candidate> else C[i]` used under `x is not None`: the value there is
+    C[i] (the helper-with-None spelling of the try / except ValueError idiom)"""
+    from ..guards import parse_guard, prop_implies, strip_iter
+    if isinstance(dest, ast.IfExp) and name is not None:
+        alts = [b for b in (dest.body, dest.orelse)
+                if not (isinstance(b, ast.Constant) and b.value is None)]
+        if len(alts) == 1 and \
+                prop_implies(strip_iter(guard), parse_guard(f'{name} is not None')) is None:
+            return alts[0]
+    return dest
+
+
 def choice_index_of(m: FnModel, idx: ast.AST, cname: str) -> Optional[str]:
     """`idx` is rng.choice(len(L)) (possibly through a local): returns src(L)"""
     e = m.walk.expand(idx, stop=[cname])
@@ -139,11 +168,14 @@ def obstacles(index: RepoIndex, rep, rule: str) -> None:
     if isinstance(a1, ast.Name):
         dd = [x for x in w.defs.get(a1.id, []) if x[0] == 'value']
         if len(dd) == 1:
-            dest = dd[0][1]
+            dest = not_none_branch(dd[0][1], a1.id, sw.ev.guard)
     okd = isinstance(dest, ast.Subscript) and isinstance(dest.value, ast.Name)
     if okd:
         cname = dest.value.id
         okd = choice_index_of(w_, dest.slice, cname) == cname
+    elif picked_from(index, dest) is not None:
+        cname = picked_from(index, dest)
+        okd = True
     rep.check(bool(okd), rule, TRANS, 'move_obstacles', sw.line, src(dest),
               'the destination is not C[rng.choice(len(C))] of the candidate list itself '
               '(some free neighbour would be impossible, or a non-candidate possible)',
@@ -395,12 +427,15 @@ def teleport(index: RepoIndex, rep, rule: str) -> None:
         if isinstance(v, ast.Name):
             dd = [x for x in w.defs.get(v.id, []) if x[0] == 'value']
             if len(dd) == 1:
-                dest = dd[0][1]
+                dest = not_none_branch(dd[0][1], v.id, e.ev.guard)
         cname = None
         ok = isinstance(dest, ast.Subscript) and isinstance(dest.value, ast.Name)
         if ok:
             cname = dest.value.id
             ok = choice_index_of(m, dest.slice, cname) == cname
+        elif picked_from(index, dest) is not None:
+            cname = picked_from(index, dest)
+            ok = True
         rep.check(bool(ok), rule, TRANS, 'teleport', e.line, src(e.ev.stmt),
                   'the destination is not C[rng.choice(len(C))] of the candidate list (some '
                   'partner pod would be impossible)', 'full-support index')
